@@ -676,6 +676,47 @@ func evalDecoderOutput(cc consCase) *Failure {
 	return nil
 }
 
+// evalDecoderOutputBig: the three decoders on the reference encodings of one larger graph.
+func evalDecoderOutputBig(g *EG) *Failure {
+	for _, fn := range []string{"Graph6Decode", "Sparse6Decode", "MulticodeDecode"} {
+		mk := func(cl, what string) *Failure {
+			return &Failure{Class: "construct/" + fn + "/" + cl, What: fmt.Sprintf("%s of the encoding of n=%d %s: %s", fn, g.N, clipEdges(g.Edges), what), Kind: "decoder-output-big", Replay: map[string]interface{}{"n": g.N, "edges": g.Edges}}
+		}
+		if fn == "MulticodeDecode" && g.N > 255 {
+			continue
+		}
+		var out graph.Graph
+		var err error
+		msg, p := try(func() {
+			switch fn {
+			case "Graph6Decode":
+				out, err = graph.Graph6Decode(refGraph6Encode(g))
+			case "Sparse6Decode":
+				out, err = graph.Sparse6Decode(refSparse6Encode(g))
+			case "MulticodeDecode":
+				out = graph.MulticodeDecode(refMulticodeEncode(g))
+			}
+		})
+		if p {
+			return mk("panic", msg)
+		}
+		if err != nil {
+			return mk("error", err.Error())
+		}
+		got, prob := egFromLib(out)
+		if prob != "" {
+			return mk("malformed-or-wrong", prob)
+		}
+		if w := selfConsistent(out); w != "" {
+			return mk("malformed-or-wrong", w)
+		}
+		if got.key() != g.key() {
+			return mk("malformed-or-wrong", "decoded graph differs from the encoded one")
+		}
+	}
+	return nil
+}
+
 func evalPruferOutput(cc consCase) *Failure {
 	var g *graph.DenseGraph
 	mk := func(cl, what string) *Failure {
@@ -903,6 +944,30 @@ func runC06(c *Ctx) {
 			}
 		}
 	})
+	// views stay live: query, edit the underlying graph, query again
+	var vcs []viewCase
+	for n := 2; n <= 4; n++ {
+		vcs = append(vcs, viewHistoryCases(n, "observers")...)
+	}
+	c.parFor(int64(len(vcs)), 64, func(lo, hi int64) {
+		for _, vc := range vcs[lo:hi] {
+			vc := vc
+			c.Check(func() *Failure { return evalViewHistory(vc, observeW) })
+			c.Nontrivial(1)
+		}
+	})
+	c.SetCount("view_histories", int64(len(vcs)))
+	// decoder outputs on structured larger graphs (indices above one byte / word boundaries)
+	for _, n := range []int{17, 18, 19, 33, 64, 65, 100} {
+		gs := structuredBig(n, n <= 33)
+		c.parFor(int64(len(gs)), 4, func(lo, hi int64) {
+			for _, g := range gs[lo:hi] {
+				g := g
+				c.Check(func() *Failure { return evalDecoderOutputBig(g) })
+				c.Nontrivial(1)
+			}
+		})
+	}
 	per := map[string]int64{}
 	for _, cc := range tcases {
 		per[cc.Fn]++
@@ -936,6 +1001,17 @@ func replayC06(kind string, raw json.RawMessage) *Failure {
 		return evalDecoderOutput(cc)
 	case "prufer-output":
 		return evalPruferOutput(cc)
+	case "view-history":
+		var vc viewCase
+		json.Unmarshal(raw, &vc)
+		return evalViewHistory(vc, observeW)
+	case "decoder-output-big":
+		var x struct {
+			N     int      `json:"n"`
+			Edges [][2]int `json:"edges"`
+		}
+		json.Unmarshal(raw, &x)
+		return evalDecoderOutputBig(&EG{N: x.N, Edges: x.Edges})
 	}
 	return &Failure{Class: "replay/unsupported-kind", What: kind}
 }
